@@ -90,6 +90,7 @@ def run(check: Check) -> None:
             if bad:
                 check.violation(f"history::context-arrays::{bad.split(':', 1)[0]}", bad, p)
     _hash_seed_companion(check)
+    _shadow_companion(check)
 
 
 def _hash_seed_companion(check: Check) -> None:
@@ -119,3 +120,19 @@ def _hash_seed_companion(check: Check) -> None:
         sd, l0, l1 = bad
         case = l0.split(" ", 2)[2]
         check.violation(f"hash-seed::{case}", f"results for {case!r} differ between PYTHONHASHSEED={seeds[0]} and {sd}", {"kind": "c18_hashseed", "seeds": [seeds[0], sd], "case": case})
+
+
+def _shadow_companion(check: Check) -> None:
+    """Labelled ground companion: one fresh interpreter in which a name is a plain context function in one build and a built-in
+    stateful transform in the next (and the other way round) - each build means what its own environment says."""
+    import subprocess
+
+    p = subprocess.run(["/venv/bin/python", "-m", "harness.c18_shadow"], cwd="/verif", capture_output=True, text=True, timeout=600, env={**__import__("os").environ})
+    lines = [l[len("PROBLEM "):] for l in p.stdout.splitlines() if l.startswith("PROBLEM ")]
+    if p.returncode != 0 or "DONE" not in p.stdout:
+        check.harness_error(f"shadow companion failed: {p.stderr[-400:]}")
+        return
+    check.case("shadowed transform names across builds of one process")
+    check.obligation("histories.shadowed_names/ground", "refuted" if lines else "ground")
+    for l in lines[:3]:
+        check.violation(f"history::shadowed-name::{l.split(':', 1)[0]}", l, {"kind": "c18_shadow"})
